@@ -50,13 +50,13 @@ type c09Unit struct {
 
 // ---- query ------------------------------------------------------------------------------------
 
-type cannedRT struct {
+type c09CannedRT struct {
 	status    int
 	body      string
 	transport bool
 }
 
-func (c cannedRT) RoundTrip(r *http.Request) (*http.Response, error) {
+func (c c09CannedRT) RoundTrip(r *http.Request) (*http.Response, error) {
 	io.Copy(io.Discard, r.Body)
 	if c.transport {
 		return nil, fmt.Errorf("injected transport error")
@@ -64,20 +64,20 @@ func (c cannedRT) RoundTrip(r *http.Request) (*http.Response, error) {
 	return &http.Response{StatusCode: c.status, Body: io.NopCloser(strings.NewReader(c.body)), Header: http.Header{}}, nil
 }
 
-type unitObs struct {
+type fwUnitObs struct {
 	Outcome string      `json:"outcome"` // ok | error | panic
 	Class   string      `json:"class,omitempty"`
 	Err     string      `json:"err,omitempty"`
 	Value   interface{} `json:"value,omitempty"`
 }
 
-func c09RunQuery(u c09Unit) (o unitObs) {
+func c09RunQuery(u c09Unit) (o fwUnitObs) {
 	defer func() {
 		if p := recover(); p != nil {
-			o = unitObs{Outcome: "panic", Err: fmt.Sprint(p)}
+			o = fwUnitObs{Outcome: "panic", Err: fmt.Sprint(p)}
 		}
 	}()
-	q := queryer.NewMultiOpQueryer("http://svc/", 3000).WithHTTPClient(&http.Client{Transport: cannedRT{u.Status, u.Body, u.Transport}})
+	q := queryer.NewMultiOpQueryer("http://svc/", 3000).WithHTTPClient(&http.Client{Transport: c09CannedRT{u.Status, u.Body, u.Transport}})
 	inputs := make([]*requests.Request, u.N)
 	for i := range inputs {
 		inputs[i] = &requests.Request{Query: fmt.Sprintf("{ q%d }", i)}
@@ -87,9 +87,9 @@ func c09RunQuery(u c09Unit) (o unitObs) {
 		if el, ok := err.(gqlerrors.ErrorList); ok {
 			// (ErrorList.Error() dereferences every element: not called here, an element may be a nil pointer)
 			b, _ := json.Marshal(el)
-			return unitObs{Outcome: "error", Class: "errors", Value: jsonOf(string(b))}
+			return fwUnitObs{Outcome: "error", Class: "errors", Value: fwJSONOf(string(b))}
 		}
-		return unitObs{Outcome: "error", Err: err.Error(), Class: c09ClassOf(err.Error())}
+		return fwUnitObs{Outcome: "error", Err: err.Error(), Class: c09ClassOf(err.Error())}
 	}
 	vals := make([]interface{}, len(res))
 	for i, m := range res {
@@ -97,10 +97,10 @@ func c09RunQuery(u c09Unit) (o unitObs) {
 			vals[i] = m
 		}
 	}
-	return unitObs{Outcome: "ok", Value: vals}
+	return fwUnitObs{Outcome: "ok", Value: vals}
 }
 
-func genJSONValue(r *hx.Rand, depth int) interface{} {
+func c09GenJSONValue(r *hx.Rand, depth int) interface{} {
 	switch r.Intn(8) {
 	case 0:
 		return nil
@@ -116,7 +116,7 @@ func genJSONValue(r *hx.Rand, depth int) interface{} {
 		}
 		m := map[string]interface{}{}
 		for k := 0; k < r.Intn(3); k++ {
-			m[hx.Pick(r, []string{"a", "b", "node", "id", "data"})] = genJSONValue(r, depth+1)
+			m[hx.Pick(r, []string{"a", "b", "node", "id", "data"})] = c09GenJSONValue(r, depth+1)
 		}
 		return m
 	default:
@@ -125,13 +125,13 @@ func genJSONValue(r *hx.Rand, depth int) interface{} {
 		}
 		l := []interface{}{}
 		for k := 0; k < r.Intn(3); k++ {
-			l = append(l, genJSONValue(r, depth+1))
+			l = append(l, c09GenJSONValue(r, depth+1))
 		}
 		return l
 	}
 }
 
-func genErrorObj(r *hx.Rand) interface{} {
+func c09GenErrorObj(r *hx.Rand) interface{} {
 	if r.Chance(1, 12) {
 		return hx.Pick(r, []interface{}{nil, 5, "str", []interface{}{}})
 	}
@@ -174,12 +174,12 @@ func genErrorObj(r *hx.Rand) interface{} {
 		}
 	}
 	if r.Chance(1, 6) {
-		e["extra"] = genJSONValue(r, 1)
+		e["extra"] = c09GenJSONValue(r, 1)
 	}
 	return e
 }
 
-func genResponseElem(r *hx.Rand) interface{} {
+func c09GenResponseElem(r *hx.Rand) interface{} {
 	switch r.Intn(12) {
 	case 0:
 		return hx.Pick(r, []interface{}{nil, 5, "x", []interface{}{}, true})
@@ -192,20 +192,20 @@ func genResponseElem(r *hx.Rand) interface{} {
 	case 4, 5:
 		var es []interface{}
 		for k := 0; k < r.Range(0, 3); k++ {
-			es = append(es, genErrorObj(r))
+			es = append(es, c09GenErrorObj(r))
 		}
 		el := map[string]interface{}{"errors": es}
 		if es == nil && r.Bool() {
 			el["errors"] = hx.Pick(r, []interface{}{nil, "x", 5, map[string]interface{}{}})
 		}
 		if r.Bool() {
-			el["data"] = genJSONValue(r, 0)
+			el["data"] = c09GenJSONValue(r, 0)
 		}
 		return el
 	}
 	d := map[string]interface{}{}
 	for k := 0; k < r.Intn(3); k++ {
-		d[hx.Pick(r, []string{"a", "b", "node"})] = genJSONValue(r, 0)
+		d[hx.Pick(r, []string{"a", "b", "node"})] = c09GenJSONValue(r, 0)
 	}
 	el := map[string]interface{}{"data": d}
 	if r.Chance(1, 10) {
@@ -220,7 +220,7 @@ func genResponseElem(r *hx.Rand) interface{} {
 	return el
 }
 
-func genQueryUnit(r *hx.Rand) c09Unit {
+func c09GenQueryUnit(r *hx.Rand) c09Unit {
 	u := c09Unit{Kind: "query", N: r.Range(1, 4), Status: 200}
 	switch r.Intn(14) {
 	case 0:
@@ -238,7 +238,7 @@ func genQueryUnit(r *hx.Rand) c09Unit {
 	}
 	arr := make([]interface{}, k)
 	for i := range arr {
-		arr[i] = genResponseElem(r)
+		arr[i] = c09GenResponseElem(r)
 	}
 	b, _ := json.Marshal(arr)
 	u.Body = string(b)
@@ -248,7 +248,7 @@ func genQueryUnit(r *hx.Rand) c09Unit {
 func c09ModelWire(u c09Unit) map[string]interface{} {
 	req := map[string]interface{}{"transport": u.Transport, "status": u.Status, "url": "http://svc/"}
 	if !u.Transport {
-		if v, err := decodeNum(u.Body); err == nil && !trailing(u.Body) {
+		if v, err := fwDecodeNum(u.Body); err == nil && !fwTrailing(u.Body) {
 			req["body"], req["json"] = v, true
 		} else {
 			req["json"] = false
@@ -259,25 +259,25 @@ func c09ModelWire(u c09Unit) map[string]interface{} {
 
 // ---- fip --------------------------------------------------------------------------------------
 
-const fipSchema = `
+const c09FipSchema = `
 interface Node { id: ID! }
 type Query { a: A  al: [A]  an: A!  aln: [A!]!  s: String }
 type A implements Node { id: ID!  b: A  bl: [A]  bn: A!  v: String  vl: [String]  u: U  ul: [U] }
 type U { w: String  c: A  cl: [A] }
 `
 
-var fipSchemaLoaded = gqlparser.MustLoadSchema(&ast.Source{Name: "fip", Input: fipSchema})
+var c09FipSchemaLoaded = gqlparser.MustLoadSchema(&ast.Source{Name: "fip", Input: c09FipSchema})
 
-type fipField struct {
+type c09FipField struct {
 	key string
 	def *ast.FieldDefinition
-	sub []*fipField
+	sub []*c09FipField
 }
 
-func genFipSel(r *hx.Rand, typ string, depth int, used map[string]bool) (string, []*fipField) {
-	def := fipSchemaLoaded.Types[typ]
+func c09GenFipSel(r *hx.Rand, typ string, depth int, used map[string]bool) (string, []*c09FipField) {
+	def := c09FipSchemaLoaded.Types[typ]
 	var parts []string
-	var fields []*fipField
+	var fields []*c09FipField
 	n := r.Range(1, 4)
 	for k := 0; k < n; k++ {
 		fd := hx.Pick(r, def.Fields)
@@ -294,13 +294,13 @@ func genFipSel(r *hx.Rand, typ string, depth int, used map[string]bool) (string,
 			continue
 		}
 		used[key] = true
-		ff := &fipField{key: key, def: fd}
+		ff := &c09FipField{key: key, def: fd}
 		tn := fd.Type.Name()
 		if tn == "A" || tn == "U" {
 			if depth >= 3 {
 				continue
 			}
-			body, sub := genFipSel(r, tn, depth+1, map[string]bool{})
+			body, sub := c09GenFipSel(r, tn, depth+1, map[string]bool{})
 			s += " " + body
 			ff.sub = sub
 		}
@@ -313,26 +313,26 @@ func genFipSel(r *hx.Rand, typ string, depth int, used map[string]bool) (string,
 	if len(parts) == 0 {
 		if typ == "U" {
 			parts = append(parts, "w")
-			fields = append(fields, &fipField{key: "w", def: def.Fields.ForName("w")})
+			fields = append(fields, &c09FipField{key: "w", def: def.Fields.ForName("w")})
 		} else if typ == "A" {
 			parts = append(parts, "id")
-			fields = append(fields, &fipField{key: "id", def: def.Fields.ForName("id")})
+			fields = append(fields, &c09FipField{key: "id", def: def.Fields.ForName("id")})
 		} else {
 			parts = append(parts, "s")
-			fields = append(fields, &fipField{key: "s", def: def.Fields.ForName("s")})
+			fields = append(fields, &c09FipField{key: "s", def: def.Fields.ForName("s")})
 		}
 	}
 	return "{ " + strings.Join(parts, " ") + " }", fields
 }
 
-var fipIDs = []interface{}{"x", "y", float64(7), nil, map[string]interface{}{"a": float64(1), "b": "s"}, []interface{}{float64(1), "q"}, true, "", "i#d", "i:d"}
+var c09FipIDs = []interface{}{"x", "y", float64(7), nil, map[string]interface{}{"a": float64(1), "b": "s"}, []interface{}{float64(1), "q"}, true, "", "i#d", "i:d"}
 
-func genFipValue(r *hx.Rand, ff *fipField, depth int) interface{} {
+func c09GenFipValue(r *hx.Rand, ff *c09FipField, depth int) interface{} {
 	obj := func() interface{} {
 		m := map[string]interface{}{}
 		for _, sf := range ff.sub {
 			if r.Chance(9, 10) {
-				m[sf.key] = genFipValue(r, sf, depth+1)
+				m[sf.key] = c09GenFipValue(r, sf, depth+1)
 			}
 		}
 		if ff.def.Type.Name() == "A" {
@@ -340,7 +340,7 @@ func genFipValue(r *hx.Rand, ff *fipField, depth int) interface{} {
 			case r.Chance(8, 10):
 				m["id"] = hx.Pick(r, []interface{}{"x", "y", "z", float64(3)})
 			case r.Chance(1, 2):
-				m["id"] = hx.Pick(r, fipIDs)
+				m["id"] = hx.Pick(r, c09FipIDs)
 			case r.Chance(1, 2):
 				return map[string]interface{}{"__typename": "A"}
 			}
@@ -373,12 +373,12 @@ func genFipValue(r *hx.Rand, ff *fipField, depth int) interface{} {
 	return "v"
 }
 
-func genFipUnit(r *hx.Rand) c09Unit {
-	body, fields := genFipSel(r, "Query", 0, map[string]bool{})
+func c09GenFipUnit(r *hx.Rand) c09Unit {
+	body, fields := c09GenFipSel(r, "Query", 0, map[string]bool{})
 	u := c09Unit{Kind: "fip", Query: body, Result: map[string]interface{}{}}
 	for _, f := range fields {
 		if r.Chance(9, 10) {
-			u.Result[f.key] = genFipValue(r, f, 0)
+			u.Result[f.key] = c09GenFipValue(r, f, 0)
 		}
 	}
 	// starting branch (already realised part of the path)
@@ -402,7 +402,7 @@ func genFipUnit(r *hx.Rand) c09Unit {
 	return u
 }
 
-func selToWire(ss ast.SelectionSet) []interface{} {
+func c09SelToWire(ss ast.SelectionSet) []interface{} {
 	out := []interface{}{}
 	for _, s := range ss {
 		switch x := s.(type) {
@@ -415,15 +415,15 @@ func selToWire(ss ast.SelectionSet) []interface{} {
 			if x.Definition != nil && x.Definition.Type != nil {
 				isList, nonNull = x.Definition.Type.Elem != nil, x.Definition.Type.NonNull
 			}
-			out = append(out, map[string]interface{}{"k": k, "l": isList, "n": nonNull, "s": selToWire(x.SelectionSet)})
+			out = append(out, map[string]interface{}{"k": k, "l": isList, "n": nonNull, "s": c09SelToWire(x.SelectionSet)})
 		case *ast.InlineFragment:
-			out = append(out, map[string]interface{}{"f": selToWire(x.SelectionSet)})
+			out = append(out, map[string]interface{}{"f": c09SelToWire(x.SelectionSet)})
 		}
 	}
 	return out
 }
 
-var fipMsgClass = []struct {
+var c09FipMsgClass = []struct {
 	class string
 	re    *regexp.Regexp
 }{
@@ -436,10 +436,10 @@ var fipMsgClass = []struct {
 	{"no-entry", regexp.MustCompile(`^root value of result chunk has no entry`)},
 }
 
-func c09RunFip(u c09Unit, ss ast.SelectionSet) (o unitObs) {
+func c09RunFip(u c09Unit, ss ast.SelectionSet) (o fwUnitObs) {
 	defer func() {
 		if p := recover(); p != nil {
-			o = unitObs{Outcome: "panic", Err: fmt.Sprint(p)}
+			o = fwUnitObs{Outcome: "panic", Err: fmt.Sprint(p)}
 		}
 	}()
 	start := u.Start
@@ -448,8 +448,8 @@ func c09RunFip(u c09Unit, ss ast.SelectionSet) (o unitObs) {
 	}
 	pts, err := executor.FindInsertionPoints(u.Target, ss, u.Result, [][]string{start})
 	if err != nil {
-		o = unitObs{Outcome: "error", Err: err.Error()}
-		for _, c := range fipMsgClass {
+		o = fwUnitObs{Outcome: "error", Err: err.Error()}
+		for _, c := range c09FipMsgClass {
 			if c.re.MatchString(err.Error()) {
 				o.Class = c.class
 			}
@@ -464,33 +464,33 @@ func c09RunFip(u c09Unit, ss ast.SelectionSet) (o unitObs) {
 		}
 		vals = append(vals, pp)
 	}
-	return unitObs{Outcome: "ok", Value: vals}
+	return fwUnitObs{Outcome: "ok", Value: vals}
 }
 
 // ---- merge ------------------------------------------------------------------------------------
 
-const mergeSchema = `
+const c09MergeSchema = `
 interface Node { id: ID! }
 type Query { x: T }
 type T implements Node { id: ID!  k: String }
 `
 
-var mergeSchemaLoaded = gqlparser.MustLoadSchema(&ast.Source{Name: "merge", Input: mergeSchema})
+var c09MergeSchemaLoaded = gqlparser.MustLoadSchema(&ast.Source{Name: "merge", Input: c09MergeSchema})
 
-type mockQueryer struct {
+type c09MockQueryer struct {
 	url string
 	f   func(n int) ([]map[string]interface{}, error)
 }
 
-func (m mockQueryer) Query(in []*requests.Request) ([]map[string]interface{}, error) {
+func (m c09MockQueryer) Query(in []*requests.Request) ([]map[string]interface{}, error) {
 	return m.f(len(in))
 }
-func (m mockQueryer) Subscribe(*requests.Request, <-chan struct{}, chan *requests.Response) error {
+func (m c09MockQueryer) Subscribe(*requests.Request, <-chan struct{}, chan *requests.Response) error {
 	return nil
 }
-func (m mockQueryer) URL() string { return m.url }
+func (m c09MockQueryer) URL() string { return m.url }
 
-func genMergeVal(r *hx.Rand, depth int) interface{} {
+func c09GenMergeVal(r *hx.Rand, depth int) interface{} {
 	switch r.Intn(9) {
 	case 0:
 		return nil
@@ -502,7 +502,7 @@ func genMergeVal(r *hx.Rand, depth int) interface{} {
 		if depth > 2 {
 			return true
 		}
-		return genMergeObj(r, depth+1, false)
+		return c09GenMergeObj(r, depth+1, false)
 	default:
 		if depth > 2 {
 			return "d"
@@ -510,19 +510,19 @@ func genMergeVal(r *hx.Rand, depth int) interface{} {
 		l := []interface{}{}
 		for k := 0; k < r.Intn(4); k++ {
 			if r.Chance(3, 4) {
-				l = append(l, genMergeObj(r, depth+1, true))
+				l = append(l, c09GenMergeObj(r, depth+1, true))
 			} else {
-				l = append(l, genMergeVal(r, depth+1))
+				l = append(l, c09GenMergeVal(r, depth+1))
 			}
 		}
 		return l
 	}
 }
 
-func genMergeObj(r *hx.Rand, depth int, entity bool) map[string]interface{} {
+func c09GenMergeObj(r *hx.Rand, depth int, entity bool) map[string]interface{} {
 	m := map[string]interface{}{}
 	for k := 0; k < r.Intn(4); k++ {
-		m[hx.Pick(r, []string{"a", "b", "l", "m"})] = genMergeVal(r, depth)
+		m[hx.Pick(r, []string{"a", "b", "l", "m"})] = c09GenMergeVal(r, depth)
 	}
 	if entity && r.Chance(4, 5) {
 		if r.Chance(9, 10) {
@@ -534,15 +534,15 @@ func genMergeObj(r *hx.Rand, depth int, entity bool) map[string]interface{} {
 	return m
 }
 
-func genMergeUnit(r *hx.Rand) c09Unit {
-	u := c09Unit{Kind: "merge", Left: genMergeObj(r, 0, false), Right: genMergeObj(r, 0, false)}
+func c09GenMergeUnit(r *hx.Rand) c09Unit {
+	u := c09Unit{Kind: "merge", Left: c09GenMergeObj(r, 0, false), Right: c09GenMergeObj(r, 0, false)}
 	for k, v := range u.Left { // raise the overlap
 		if r.Chance(1, 2) {
 			switch v.(type) {
 			case map[string]interface{}:
-				u.Right[k] = genMergeObj(r, 1, false)
+				u.Right[k] = c09GenMergeObj(r, 1, false)
 			case []interface{}:
-				u.Right[k] = genMergeVal(r, 0)
+				u.Right[k] = c09GenMergeVal(r, 0)
 			}
 		}
 	}
@@ -550,46 +550,46 @@ func genMergeUnit(r *hx.Rand) c09Unit {
 	return u
 }
 
-func c09RunMerge(u c09Unit) (o unitObs) {
+func c09RunMerge(u c09Unit) (o fwUnitObs) {
 	defer func() {
 		if p := recover(); p != nil {
-			o = unitObs{Outcome: "panic", Err: fmt.Sprint(p)}
+			o = fwUnitObs{Outcome: "panic", Err: fmt.Sprint(p)}
 		}
 	}()
-	doc, gerr := gqlparser.LoadQuery(mergeSchemaLoaded, "{ x { id } }")
+	doc, gerr := gqlparser.LoadQuery(c09MergeSchemaLoaded, "{ x { id } }")
 	if gerr != nil {
-		return unitObs{Outcome: "error", Err: gerr.Error()}
+		return fwUnitObs{Outcome: "error", Err: gerr.Error()}
 	}
 	child := &planner.QueryPlanStep{URL: "b", ParentType: "T", InsertionPoint: []string{"x"}, QueryString: "child"}
 	root := &planner.QueryPlanStep{URL: "a", ParentType: "Query", SelectionSet: doc.Operations[0].SelectionSet, QueryString: "root", Then: []*planner.QueryPlanStep{child}}
 	qs := map[string]queryer.Queryer{
-		"a": mockQueryer{"a", func(int) ([]map[string]interface{}, error) { return []map[string]interface{}{{"x": u.Left}}, nil }},
-		"b": mockQueryer{"b", func(int) ([]map[string]interface{}, error) { return []map[string]interface{}{{"node": u.Right}}, nil }},
+		"a": c09MockQueryer{"a", func(int) ([]map[string]interface{}, error) { return []map[string]interface{}{{"x": u.Left}}, nil }},
+		"b": c09MockQueryer{"b", func(int) ([]map[string]interface{}, error) { return []map[string]interface{}{{"node": u.Right}}, nil }},
 	}
 	var ex executor.ParallelExecutor
 	res, err := ex.Execute(&executor.ExecutionContext{QueryPlan: &planner.QueryPlan{RootSteps: []*planner.QueryPlanStep{root}}, Request: &requests.Request{Query: "{ x { id } }"}, Queryers: qs})
 	if err != nil {
-		return unitObs{Outcome: "error", Err: err.Error()}
+		return fwUnitObs{Outcome: "error", Err: err.Error()}
 	}
-	return unitObs{Outcome: "ok", Value: res["x"]}
+	return fwUnitObs{Outcome: "ok", Value: res["x"]}
 }
 
 // c09RunCount: n root steps on one URL, the mock answers k results (used by the worker).
-func c09RunCount(n, k int) (o unitObs) {
+func c09RunCount(n, k int) (o fwUnitObs) {
 	defer func() {
 		if p := recover(); p != nil {
-			o = unitObs{Outcome: "panic", Err: fmt.Sprint(p)}
+			o = fwUnitObs{Outcome: "panic", Err: fmt.Sprint(p)}
 		}
 	}()
-	doc, gerr := gqlparser.LoadQuery(mergeSchemaLoaded, "{ x { id } }")
+	doc, gerr := gqlparser.LoadQuery(c09MergeSchemaLoaded, "{ x { id } }")
 	if gerr != nil {
-		return unitObs{Outcome: "error", Err: gerr.Error()}
+		return fwUnitObs{Outcome: "error", Err: gerr.Error()}
 	}
 	var steps []*planner.QueryPlanStep
 	for i := 0; i < n; i++ {
 		steps = append(steps, &planner.QueryPlanStep{URL: "a", ParentType: "Query", SelectionSet: doc.Operations[0].SelectionSet, QueryString: fmt.Sprintf("q%d", i)})
 	}
-	qs := map[string]queryer.Queryer{"a": mockQueryer{"a", func(int) ([]map[string]interface{}, error) {
+	qs := map[string]queryer.Queryer{"a": c09MockQueryer{"a", func(int) ([]map[string]interface{}, error) {
 		out := make([]map[string]interface{}, k)
 		for i := range out {
 			out[i] = map[string]interface{}{"x": map[string]interface{}{"id": fmt.Sprint(i)}}
@@ -599,12 +599,12 @@ func c09RunCount(n, k int) (o unitObs) {
 	var ex executor.ParallelExecutor
 	_, err := ex.Execute(&executor.ExecutionContext{QueryPlan: &planner.QueryPlan{RootSteps: steps}, Request: &requests.Request{Query: "{ x { id } }"}, Queryers: qs})
 	if err != nil {
-		return unitObs{Outcome: "error", Err: err.Error(), Class: c09ClassOf(strings.TrimSuffix(err.Error(), "."))}
+		return fwUnitObs{Outcome: "error", Err: err.Error(), Class: c09ClassOf(strings.TrimSuffix(err.Error(), "."))}
 	}
-	return unitObs{Outcome: "ok"}
+	return fwUnitObs{Outcome: "ok"}
 }
 
-func fedExchangeOf(u c09Unit) *fed.WireExchange {
+func c09ExchangeOf(u c09Unit) *fed.WireExchange {
 	ex := &fed.WireExchange{N: u.N, Status: u.Status, Body: u.Body}
 	if u.Transport {
 		ex.TransportErr = "injected transport error"
@@ -659,7 +659,7 @@ func c09UnitCheck(ctx *Ctx, idx int, u c09Unit) {
 	fail := func(kind, detail string, impl, model interface{}) {
 		fwFail(ctx, hx.Failure{Kind: kind, Detail: detail, Case: cs, Impl: impl, Model: model, Index: idx})
 	}
-	var o unitObs
+	var o fwUnitObs
 	var req map[string]interface{}
 	switch u.Kind {
 	case "query":
@@ -668,14 +668,14 @@ func c09UnitCheck(ctx *Ctx, idx int, u c09Unit) {
 		req["op"], req["n"] = "c09.query", u.N
 		ctx.Rep.Count("unit query: " + o.Outcome + "/" + o.Class)
 		// property oracle on the unit: a failure signal must be an error, nothing may panic
-		ex := fedExchangeOf(u)
+		ex := c09ExchangeOf(u)
 		if o.Outcome == "panic" {
 			fail("property-fails", "MultiOpQueryer.Query panicked on a downstream answer: "+o.Err, o, nil)
 		} else if sig := c09Signal(ex); sig != "" && o.Outcome != "error" {
 			fail("property-fails", "failure signal ["+sig+"] but MultiOpQueryer.Query returned no error (failure masked)", o, nil)
 		}
 	case "fip":
-		doc, gerr := gqlparser.LoadQuery(fipSchemaLoaded, u.Query)
+		doc, gerr := gqlparser.LoadQuery(c09FipSchemaLoaded, u.Query)
 		if gerr != nil {
 			ctx.Rep.Count("unit fip: generated query invalid")
 			return
@@ -686,7 +686,7 @@ func c09UnitCheck(ctx *Ctx, idx int, u c09Unit) {
 		if start == nil {
 			start = []string{}
 		}
-		req = map[string]interface{}{"op": "c09.fip", "target": u.Target, "start": start, "selection": selToWire(ss), "result": u.Result}
+		req = map[string]interface{}{"op": "c09.fip", "target": u.Target, "start": start, "selection": c09SelToWire(ss), "result": u.Result}
 		ctx.Rep.Count("unit fip: " + o.Outcome + "/" + o.Class)
 		if o.Outcome == "panic" {
 			fail("property-fails", "FindInsertionPoints panicked on an answer whose shape contradicts the schema: "+o.Err, o, nil)
@@ -697,9 +697,9 @@ func c09UnitCheck(ctx *Ctx, idx int, u c09Unit) {
 		ctx.Rep.Count("unit merge: " + o.Outcome)
 		if o.Outcome == "ok" {
 			sent, got := map[string]bool{}, map[string]bool{}
-			leavesOf(u.Left, sent)
-			leavesOf(u.Right, sent)
-			leavesOf(o.Value, got)
+			fwLeavesOf(u.Left, sent)
+			fwLeavesOf(u.Right, sent)
+			fwLeavesOf(o.Value, got)
 			for l := range got {
 				if !sent[l] {
 					fail("property-fails", "merged result contains a value neither side sent: "+l, o, nil)
@@ -752,7 +752,7 @@ func c09UnitRun(ctx *Ctx, idx *int) error {
 	if ctx.Thorough() {
 		n = 25000
 	}
-	for _, gen := range []func(*hx.Rand) c09Unit{genQueryUnit, genFipUnit, genMergeUnit} {
+	for _, gen := range []func(*hx.Rand) c09Unit{c09GenQueryUnit, c09GenFipUnit, c09GenMergeUnit} {
 		for k := 0; k < n; k++ {
 			u := gen(ctx.Rand.Fork())
 			if k < 1 {
